@@ -155,7 +155,8 @@ def run(prog, world, sem, rep):
         for s in seqs:
             ks = []
             for x in s:
-                xi = world.ident(x)
+                from .msgs import through_closure_call
+                xi = world.ident(through_closure_call(world, x))
                 inner = world.ident(xi.args[0]) if xi.op == "adt" and xi.info[0].endswith("CosmosMsg") and xi.args else xi
                 r0 = wasm_execute(world, sem, inner) if inner.op == "adt" else None
                 ks.append(r0[1].info[1] if r0 and r0[1] is not None and r0[1].op == "adt" else "?")
